@@ -552,7 +552,7 @@ theorem lookup_setAssoc (l : List (Ident × Val)) (n : Ident) (v : Val) (h : (l.
     obtain ⟨k, x⟩ := e
     simp only [List.lookup] at h
     by_cases hk : n = k
-    · subst hk; simp [List.lookup]
+    · subst hk; simp
     · have hb : (n == k) = false := by simpa using hk
       have hb2 : (k == n) = false := by simpa using Ne.symm hk
       rw [hb] at h
@@ -612,5 +612,106 @@ theorem scopeView_setVar (sw : Switches) (k : Kind) : ∀ (ms : List Mod) (id : 
         intro f _
         rw [ih id n v f.target h]
       · exact ih id n v i h
+
+
+/-! ### key-soundness: `keys()` lists only names that `get` serves (holds for every switch setting) -/
+
+theorem sound_empty : View.empty.KeysSound := by intro n h; simp [View.empty] at h
+
+theorem sound_base (id : Nat) (own : List Ident) : (View.base id own).KeysSound := by
+  intro n h
+  simp only [View.base] at h ⊢
+  simp [h]
+
+theorem sound_pub (v : View) (hv : v.KeysSound) : (View.pub v).KeysSound := by
+  intro n h
+  simp only [View.pub, List.mem_filter] at h ⊢
+  have hp : isPrivate n = false := by simpa using h.2
+  simp [hp, hv n h.1]
+
+theorem sound_prefixed (b : Bool) (v : View) (p : Ident) (hv : v.KeysSound) : (View.prefixed b v p).KeysSound := by
+  intro n h
+  simp only [View.prefixed, List.mem_map] at h ⊢
+  obtain ⟨k, hk, rfl⟩ := h
+  have hk' : k ∈ v.keys := by
+    cases b
+    · simpa using hk
+    · simp only [if_true, List.mem_filter] at hk; exact hk.1
+  have hpre : p.isPrefixOf (p ++ k) = true := by simp [List.isPrefixOf_iff_prefix]
+  simp [hpre, hv k hk']
+
+theorem sound_safelist (v : View) (s : List Ident) : (View.safelist v s).KeysSound := by
+  intro n h
+  simp only [View.safelist] at h ⊢
+  have hc : (List.filter (fun k => (v.get k).isSome) s).contains n = true := by simpa using h
+  simp only [hc, if_true]
+  simp only [List.mem_filter] at h
+  exact h.2
+
+theorem sound_blocklist (v : View) (s : List Ident) (hv : v.KeysSound) : (View.blocklist v s).KeysSound := by
+  intro n h
+  simp only [View.blocklist] at h ⊢
+  have hc : (List.filter (fun k => !s.contains k) v.keys).contains n = true := by simpa using h
+  simp only [hc, if_true]
+  simp only [List.mem_filter] at h
+  exact hv n h.1
+
+theorem sound_merged (vs : List View) (hv : ∀ v ∈ vs, v.KeysSound) : (View.merged vs).KeysSound := by
+  intro n h
+  simp only [View.merged] at h ⊢
+  rw [List.mem_eraseDups, List.mem_flatMap] at h
+  obtain ⟨v, hm, hk⟩ := h
+  rw [List.findSome?_isSome_iff]
+  exact ⟨v, by simpa using hm, hv v hm n hk⟩
+
+theorem sound_limitBy (vis : Vis) (k : Kind) (v : View) (hv : v.KeysSound) : (limitBy vis k v).KeysSound := by
+  unfold limitBy
+  split
+  · exact sound_safelist _ _
+  · split
+    · exact hv
+    · exact sound_blocklist _ _ hv
+  · exact hv
+
+theorem sound_forwardedMap (sw : Switches) (k : Kind) (r : FwdRule) (v : View) (hv : v.KeysSound) :
+    (forwardedMap sw k r v).KeysSound := by
+  have h1 : (prefixBy sw.prefixedKeysBug r.pfx v).KeysSound := by
+    unfold prefixBy
+    split
+    · exact sound_prefixed _ _ _ hv
+    · exact hv
+  unfold forwardedMap
+  simp only
+  split
+  · exact h1
+  · exact sound_limitBy _ _ _ h1
+
+theorem sound_memberMap (id : Nat) (own : List Ident) (others : List View) (ho : ∀ v ∈ others, v.KeysSound) :
+    (memberMap (View.base id own) others).KeysSound := by
+  unfold memberMap
+  simp only
+  split
+  · exact sound_pub _ (sound_base id own)
+  · apply sound_merged
+    intro v hv
+    simp only [List.mem_append, List.mem_filter, List.mem_singleton] at hv
+    rcases hv with ⟨hv, _⟩ | hv
+    · exact ho v hv
+    · subst hv; exact sound_pub _ (sound_base id own)
+
+theorem sound_scopeView (sw : Switches) (k : Kind) : ∀ (ms : List Mod) (id : Nat), (scopeView sw k ms id).KeysSound := by
+  intro ms
+  induction ms with
+  | nil => intro id; simpa [scopeView] using sound_empty
+  | cons m rest ih =>
+    intro id
+    unfold scopeView
+    split
+    · apply sound_memberMap
+      intro v hv
+      simp only [List.mem_map] at hv
+      obtain ⟨f, _, rfl⟩ := hv
+      exact sound_forwardedMap _ _ _ _ (ih f.target)
+    · exact ih id
 
 end Grass.Module
